@@ -358,3 +358,71 @@ func VF_C20_GrowIdx() {
 	tagIndex = index_constants.IndexKindSkipList
 	grow(true)
 }
+
+// A log larger than the log buffer (LogBufferSize, 528 KB): an early transaction stays in flight, a second one
+// commits 360 rows of 1.5 KB, crash. Undo reads the loser's records near the start of the log; whatever the
+// recovery run writes to the log afterwards must not damage the records which are still needed if the
+// recovery is itself cut short (second crash within a few I/O operations after its first log write).
+func VF_C20_BigLog() { bigLog(true) }
+
+// the same history with a single, uninterrupted recovery
+func VF_C01_BigLog() { bigLog(false) }
+
+func bigLog(second bool) {
+	w := open(50)
+	tm := w.r.Shi.GetTransactionManager()
+	t1 := tm.Begin(nil)
+	w.r.Exec(sysx.Insert("t1", []string{"tag", "v", "s"}, []types.Value{types.NewInteger(100000), types.NewInteger(1), types.NewVarchar("loser")}), t1)
+	t2 := tm.Begin(nil)
+	model := state{}
+	v := vf.I32()
+	for i := 0; i < 360; i++ {
+		w.r.Exec(sysx.Insert("t1", []string{"tag", "v", "s"}, []types.Value{types.NewInteger(int32(i + 1)), types.NewInteger(v), types.NewVarchar(bigStr)}), t2)
+		model[int32(i+1)] = v
+	}
+	vf.Assert(t2.GetState() != access.ABORTED, "bulk insert is not aborted")
+	tm.Commit(w.r.Cat, t2)
+	w.r.Sdb.ShutdownForTescase()
+	vf.FsCrash(vf.FsTraceLen(), 0)
+	r2 := sysx.OpenReal(dbName, 200)
+	r3 := r2
+	if second {
+		r3 = bigLogSecondCrash(r2)
+	}
+	bigLogCheck(r3, model)
+}
+
+func bigLogSecondCrash(r2 *sysx.Real) *sysx.Real {
+	n2 := vf.FsTraceLen()
+	first := -1
+	for j := 0; j < n2; j++ {
+		if vf.FsTraceIsWrite(j, ".log") {
+			first = j
+			break
+		}
+	}
+	vf.Assume(first >= 0)
+	k2 := first + 1 + vf.Choose(3)
+	vf.Assume(k2 <= n2)
+	vf.Note("second-crash-at", k2)
+	vf.Note("recovery-trace-len", n2)
+	r2.Sdb.ShutdownForTescase()
+	vf.FsCrash(k2, 0)
+	return sysx.OpenReal(dbName, 200)
+}
+
+func bigLogCheck(r3 *sysx.Real, model state) {
+	rows, sc, ab := r3.SelectAll("t1")
+	vf.Assert(!ab, "scan after the restart is not aborted")
+	got := state{}
+	for _, row := range rows {
+		got[row.GetValue(sc, 0).ToInteger()] = row.GetValue(sc, 1).ToInteger()
+		vf.Assert(row.GetValue(sc, 2).ToVarchar() == bigStr, "every row holds its 1.5 KB string unchanged")
+	}
+	vf.Assert(len(rows) == len(model) && len(got) == len(model), "exactly the committed rows are there after the interrupted and repeated recovery")
+	for tag, mv := range model {
+		gv, ok := got[tag]
+		vf.Assert(ok && gv == mv, "every committed row is there with its value")
+	}
+	vf.Cover("c20.biglog")
+}
